@@ -104,11 +104,12 @@ func streamThreeway() {
 		cur := key
 		n := 1 + r.Intn(6)
 		var deg, syl []string
+		seen := []string{key}
 		ok := true
 		for j := 0; j < n; j++ {
 			var it aitem
 			it.durs = "[" + genDur2(r) + "]"
-			if r.Intn(6) == 0 {
+			if r.Intn(5) == 0 {
 				it.rest = true
 			} else {
 				it.root = anote{1 + r.Intn(7), r.Intn(3) - 1}
@@ -120,6 +121,10 @@ func streamThreeway() {
 			}
 			if r.Intn(4) == 0 {
 				it.keyChg = keys28[r.Intn(28)]
+				if len(seen) > 0 && r.Intn(3) == 0 { // back to a key the piece was in before
+					it.keyChg = seen[r.Intn(len(seen))]
+				}
+				seen = append(seen, it.keyChg)
 				cur = it.keyChg
 			}
 			if r.Intn(5) == 0 {
